@@ -255,7 +255,7 @@ def tuple_to_bitstring(tup: Tuple[int, ...]) -> str:
     Returns:
         A string with binary digits
     """
-    return "".join(map(str, tup))
+    return "".join(str(int(bit)) for bit in tup)
 
 
 class ValueEstimate(float):
